@@ -81,7 +81,7 @@ class extract_visitor(NodeVisitor):
             elif isinstance(name, UNSUPPORTED_ASSIGMENTS):
                 continue
             else:
-                flow.add_name(AssignedName(name.id, location, np(name), value), comprehension)
+                flow.add_name(AssignedName(name.id, location or np(name), np(name), value), comprehension)
 
     def visit_Assign(self, node):
         # type: (ast.Assign) -> None
@@ -136,7 +136,8 @@ class extract_visitor(NodeVisitor):
         cur = self.flow
 
         body_start = self.make_flow('for', [cur])
-        self.bind_target(body_start, node.target, get_first_body_node_loc(node.body) or np(node.body[0]), node.iter)
+        # the targets are bound from left to right: `for i, a[i] in ...` reads the new i
+        self.bind_target(body_start, node.target, None, node.iter)
         self.visit_in_flow(node.target, body_start)
         body = self.visit_in_flow(node.body, body_start)
         body_start.loop(body)
